@@ -38,6 +38,16 @@ def run(tier):
     v.distinct += distinct_count(sch2)
     conform(v, wd, "exh-2r-mem", e, sch2)
 
+    # the property says "any history of ... synchronizations": syncs of different replicas may
+    # also overlap (C02 explores that in depth); here a sample with every update its own version
+    gr = consts(Props={"p", "q"}, Racing=True, MaxPending=2, MaxLong=2, MaxEdits=0, MaxChain=12,
+                Times={1, 2})
+    gr = dict(gr, BigVals=gr["Vals"])
+    sch3, _ = gen_schedules(wd, "gen-race-2r-batches", gr, init="PInit",
+                            simulate=800 if thorough else 120, depth=80)
+    v.distinct += distinct_count(sch3)
+    conform(v, wd, "race-2r-batches", gr, sch3)
+
     v.finish("model_checking",
              rule="TLC enumerates (exhaustively for small constants, by simulation for larger "
                   "ones) histories of edits and complete syncs incl. multi-version syncs; each "
